@@ -55,7 +55,7 @@ func vC10Battery(v *VMValue, script string) {
 	vObserveAll(vm, err)
 }
 
-//vh:prop=C10 tiers=quick,thorough sigkeys=shape,script unwind=6 unwind_ok=1 depth_is_violation=1 maxdepth=4000 budget_s=1800 quick:P.scripts=8 thorough:P.scripts=30 bounds="32 document shapes (well-typed, ill-typed, missing / null fields, nested nulls, unknown native names, wrong container kinds, scalars, wrong-case keys) with the type tags and numbers as 64-bit solver symbols (so every known and unknown tag is a case of the decoder's switch), decoded with VMValueFromJSON through the real UnmarshalJSON code (JSON syntax and struct mapping by the engine's encoding/json model); every successfully decoded value goes through printing, repr, truthiness, equality, clone, re-serialisation, dict-key use and a script (quick: 8 scripts, thorough: 30) binding it to a variable: no panic site may be reachable"
+//vh:prop=C10 tiers=quick,thorough sigkeys=shape,script unwind=6 unwind_ok=1 depth_is_violation=1 maxdepth=4000 maxsteps=150000000 budget_s=1800 quick:P.scripts=8 thorough:P.scripts=30 bounds="32 document shapes (well-typed, ill-typed, missing / null fields, nested nulls, unknown native names, wrong container kinds, scalars, wrong-case keys) with the type tags and numbers as 64-bit solver symbols (so every known and unknown tag is a case of the decoder's switch), decoded with VMValueFromJSON through the real UnmarshalJSON code (JSON syntax and struct mapping by the engine's encoding/json model); every successfully decoded value goes through printing, repr, truthiness, equality, clone, re-serialisation, dict-key use and a script (quick: 8 scripts, thorough: 30) binding it to a variable: no panic site may be reachable"
 func VH_C10_value() {
 	si := vChoice("shape", len(vC10Shapes))
 	doc := vC10Doc(vC10Shapes[si])
